@@ -78,7 +78,7 @@ func (w *world) sockets() []sio.ServerSocket {
 
 // one random operation; from = "g<k>" or the handler it is issued from
 func (w *world) op(r *rand.Rand, wd *watchdog, from string, depth int) {
-	nOps := 34
+	nOps := 37
 	k := r.Intn(nOps)
 	nsp := w.nsps[r.Intn(len(w.nsps))]
 	room := rooms[r.Intn(len(rooms))]
@@ -240,11 +240,26 @@ func (w *world) op(r *rand.Rand, wd *watchdog, from string, depth int) {
 		if r.Intn(10) == 0 {
 			nsp.In(room).DisconnectSockets(false)
 		}
+	case 34:
+		// the adapter's session API (public through Namespace.Adapter): sessions of the harness's own, so that
+		// every exit of RestoreSession is taken - unknown, expired but not yet cleaned (the public creator cleans
+		// once a minute), fresh with an unknown offset
+		pid := adapter.PrivateSessionID(fmt.Sprintf("vp%d", r.Intn(6)))
+		nsp.Adapter().PersistSession(&adapter.SessionToPersist{SID: adapter.SocketID("vs" + string(pid)), PID: pid, Rooms: []adapter.Room{adapter.Room(room)}})
+	case 35:
+		pid := adapter.PrivateSessionID(fmt.Sprintf("vp%d", r.Intn(8)))
+		nsp.Adapter().RestoreSession(pid, "no-such-offset")
+	case 36:
+		pid := adapter.PrivateSessionID(fmt.Sprintf("vp%d", r.Intn(6)))
+		nsp.Adapter().PersistSession(&adapter.SessionToPersist{SID: adapter.SocketID("vs" + string(pid)), PID: pid})
+		time.Sleep(time.Duration(r.Intn(25)) * time.Millisecond) // around the 15 ms window: expired or not
+		nsp.Adapter().RestoreSession(pid, "")
+		nsp.Emit("b", 11)
 	}
 	_ = depth
 }
 
-func newWorld(seed int64, nclients int, wd *watchdog) (*world, error) {
+func newWorld(seed int64, nclients int, wd *watchdog, recov bool) (*world, error) {
 	w := &world{seed: seed}
 	var hseq int64
 	fromHandler := func(kind string) {
@@ -260,7 +275,11 @@ func newWorld(seed int64, nclients int, wd *watchdog) (*world, error) {
 		r := rand.New(rand.NewSource(seed*7919 + n))
 		w.op(r, wd, "h-"+kind, 1)
 	}
-	srv, err := rig.NewServer(nil, func(io *sio.Server) {
+	var cfg *sio.ServerConfig
+	if recov { // the session-aware adapter, as the public configuration builds it
+		cfg = &sio.ServerConfig{ServerConnectionStateRecovery: sio.ServerConnectionStateRecovery{Enabled: true, MaxDisconnectionDuration: 15 * time.Millisecond}}
+	}
+	srv, err := rig.NewServer(cfg, func(io *sio.Server) {
 		for _, name := range []string{"/", "/n"} {
 			n := io.Of(name)
 			w.nsps = append(w.nsps, n)
@@ -344,7 +363,7 @@ func (w *world) close() {
 func TestC16(t *testing.T) {
 	out := vres.OutDir()
 	res := vres.New()
-	res.Rule = "one case = one randomly generated concurrent program: 2..16 goroutines x 20..40 operations drawn from 34 kinds over the server, namespace, socket, manager and adapter APIs (handlers issue operations too), 2-4 real clients over the three transport configurations, GOMAXPROCS in {1,2,4,16}, yields injected at the hook points; distinct by seed; all non-trivial"
+	res.Rule = "one case = one randomly generated concurrent program: 2..16 goroutines x 20..40 operations drawn from 37 kinds over the server, namespace, socket, manager and adapter APIs (handlers issue operations too), 2-4 real clients over the three transport configurations, every second program on a server with connection state recovery (session-aware adapter), GOMAXPROCS in {1,2,4,16}, yields injected at the hook points; distinct by seed; all non-trivial"
 	vtrace.Install()
 	defer vtrace.Uninstall()
 	vtrace.SetFilter(func(name string) bool { return name == "reset" || name == "quiesce" || name == "settle" })
@@ -371,10 +390,10 @@ func TestC16(t *testing.T) {
 		})
 		wd := &watchdog{cur: map[int]opInfo{}}
 		vtrace.Take()
-		w, err := newWorld(seed, 2+sc%3, wd)
+		w, err := newWorld(seed, 2+sc%3, wd, sc%2 == 1)
 		if err != nil { // a loaded machine: once more
 			time.Sleep(500 * time.Millisecond)
-			w, err = newWorld(seed, 2+sc%3, wd)
+			w, err = newWorld(seed, 2+sc%3, wd, sc%2 == 1)
 		}
 		if err != nil {
 			res.Inconclusive("rig", err.Error(), sc)
